@@ -45,7 +45,7 @@ def _macro_args_pure(f, o, c):
         if t.kind == "macro":
             return False
         if t.kind == "ident" and k + 1 < c and f.code[k + 1].text == "(" and f.code[k - 1].text == ".":
-            if t.text not in ("as_str", "len", "display", "to_string", "clone", "as_ref", "to_str", "unwrap_or", "unwrap_or_default", "iter", "is_some", "is_none", "as_deref", "to_string_lossy", "id", "code", "join", "as_secs_f32", "elapsed", "as_millis"):
+            if t.text not in ("as_str", "len", "display", "to_string", "clone", "as_ref", "to_str", "unwrap_or", "unwrap_or_default", "iter", "is_some", "is_none", "as_deref", "to_string_lossy", "id", "code", "join", "address", "as_secs_f32", "elapsed", "as_millis"):
                 return False
         if t.text in ("=", "+=", "-=") and f.code[k - 1].kind == "ident" and f.code[k + 1].text != "=" and f.code[k - 1].text not in ():
             # `name = expr` is the tracing field syntax; allowed
